@@ -1,6 +1,7 @@
 package main
 
 import (
+	"path/filepath"
 	"flag"
 	"fmt"
 	"os"
@@ -47,6 +48,16 @@ func main() {
 		if *work != "" {
 			os.MkdirAll(*work, 0755)
 			os.Chown(*work, *uid, *uid)
+			// the unprivileged lane must be able to execute the model driver wherever /verif lives
+			// (a checkout below a directory that other users cannot traverse): run a copy from the
+			// scratch directory
+			if b, err := os.ReadFile(*driver); err == nil {
+				cp := filepath.Join(*work, "driver-copy")
+				if os.WriteFile(cp, b, 0755) == nil {
+					os.Chmod(cp, 0755)
+					*driver = cp
+				}
+			}
 		}
 		syscall.Setgroups([]int{})
 		if err := syscall.Setgid(*uid); err != nil {
